@@ -841,7 +841,10 @@ class PauliString(raw_types.Operation, Generic[TKey]):
                     pauli_gates.Y: common_gates.YPowGate,
                     pauli_gates.Z: common_gates.ZPowGate,
                 }
-                return gates[p](exponent=power).on(q)
+                if i == 0:
+                    return gates[p](exponent=power).on(q)
+                # The phase of the coefficient is raised to the power as well.
+                return gates[p](exponent=power, global_shift=i / math.pi).on(q)
 
             global_half_turns = power * (i / math.pi)
 
